@@ -112,6 +112,9 @@ func (x *Exec) buildVC(o *Obligation) *VC {
 		vc.Asserts = append(vc.Asserts, ixAxiom())
 	}
 	vc.Asserts = append(vc.Asserts, jsonAxioms()...)
+	if usesQuantBox(append(append([]*Term{}, vc.Asserts...), o.Goal)) {
+		vc.Asserts = append(vc.Asserts, boxAxioms()...)
+	}
 	vc.Asserts = append(vc.Asserts, uuidAxioms()...)
 	if _, ok := symTab["unix_epoch"]; ok {
 		vc.Asserts = append(vc.Asserts, Gt(unixEpoch(), Int(0)))
@@ -435,6 +438,34 @@ func usesSymbol(ts []*Term, name string) bool {
 				if rec(q) {
 					return true
 				}
+			}
+		}
+		return false
+	}
+	for _, t := range ts {
+		if rec(t) {
+			return true
+		}
+	}
+	return false
+}
+
+
+// usesQuantBox: is some box_* function applied to a term with a bound variable?
+func usesQuantBox(ts []*Term) bool {
+	seen := map[*Term]bool{}
+	var rec func(t *Term) bool
+	rec = func(t *Term) bool {
+		if seen[t] {
+			return false
+		}
+		seen[t] = true
+		if t.kind == kApp && strings.HasPrefix(t.Op, "box_") && len(t.Args) == 1 && t.Args[0].hasBV {
+			return true
+		}
+		for _, a := range t.Args {
+			if rec(a) {
+				return true
 			}
 		}
 		return false
